@@ -90,7 +90,7 @@ def cases(draw, tier="quick"):
     d = draw(S.delimiters())
     # C08 quantifies over ALL strict converters, so CURIE prefixes may contain the delimiter here (the mode relation does
     # not depend on it); e.g. prefix APOLLO_SV with delimiter _
-    recs = draw(S.record_sets(delimiter=d, max_records=6 if big else 4, max_syn=3, prefix_no_delimiter=draw(st.integers(0, 2)) > 0))
+    recs = draw(S.record_sets(delimiter=d, foreign_delimiters=True, max_records=6 if big else 4, max_syn=3, prefix_no_delimiter=draw(st.integers(0, 2)) > 0))
     strings = []
     strings += draw(S.curie_probes(recs, d, extra=6 if big else 4))
     strings += draw(S.uri_probes(recs, extra=4 if big else 2, delimiter=d))[-6:]
